@@ -57,7 +57,8 @@ def run(R, tier, seed):
     for r in results:
         execs += r['execs']
         steps += r['steps']
-        digest_src.append((r['idx'], r['T'], r['execs'], r['why'], len(r['viol']), sorted(r['probes'].items())))
+        digest_src.append((r['idx'], r['T'], r['execs'], r['why'], len(r['viol']), sorted(r['probes'].items()),
+                           r.get('outcome_hash')))
         pr = per_rule.setdefault(r['rule'], dict(cases=0, explored=0, execs=0))
         pr['cases'] += 1
         pr['execs'] += r['execs']
